@@ -41,7 +41,7 @@ func parseSafe(src string) (n ast.Node, err error) {
 	return t.Node, nil
 }
 
-var c12Runes = []rune{'a', 0, '\a', '\t', '\v', '"', '\'', '\\', 'é', 0xFFFD, 0x1F600, 0x10FFFF, ' ', '`'}
+var c12Runes = []rune{'a', 0, '\a', '\t', '\v', '"', '\'', '\\', 'é', 0xFFFD, 0x1F600, 0x10FFFF, ' ', '`', '\r', '\n'}
 
 // spellings of rune r inside a literal quoted with q
 func c12Spellings(r rune, q rune) []string {
@@ -225,6 +225,15 @@ func c12(r *report.Run) {
 		addF(s)
 		addF(math.Nextafter(s, math.Inf(1)))
 		addF(math.Nextafter(s, 0))
+	}
+	// a deterministic grid of values whose shortest decimal form has 16-17 significant digits
+	for i := 1; i <= 400; i++ {
+		addF(float64(i) * 0.7071067811865476)
+		addF(float64(i) * 1.1920928955078125e-3 / 3)
+		addF(1 - float64(i)*1.1102230246251565e-16)
+	}
+	for _, f := range []float64{0.9999999999999999, 94.05090880450125, 1.7976931348623157, 123456.78901234567, 0.30000000000000004, 4.35, 2.675, 1.005} {
+		addF(f)
 	}
 	for k := -1074; k <= 1023; k += 7 {
 		f := math.Ldexp(1, k)
